@@ -21,6 +21,7 @@ WORK = os.environ.get("VERIF_WORK", os.path.join(VERIF, "work"))
 SEMANTIC = (
     "postcondition not satisfied",
     "precondition not satisfied",
+    "precondition not met",
     "assertion failed",
     "invariant not satisfied",
     "possible arithmetic underflow/overflow",
@@ -128,15 +129,58 @@ def parse_insts(s):
 
 
 def inst_name(inst):
-    return "_".join("%s%s" % (k, re.sub(r"[^A-Za-z0-9]", "", v)) for k, v in sorted(inst.items())) or "base"
+    return "_".join("%s%s" % (k, re.sub(r"[^A-Za-z0-9]", "", v)) for k, v in sorted(inst.items()) if not k.startswith("__")) or "base"
 
 
 def subst_vars(text, inst):
     if not text:
         return text
     for k in sorted(inst, key=len, reverse=True):
+        if k.startswith("__"):
+            continue
         text = text.replace("${%s}" % k, inst[k])
+    alias = inst.get("__alias__")
+    if alias:
+        for old, new in alias.items():
+            # field accesses `.old` and struct-literal / pattern fields `old:`
+            text = re.sub(r"(?<=\.)%s\b" % re.escape(old), new, text)
+            text = re.sub(r"(?<![\w\.:])%s(?=\s*:(?!:))" % re.escape(old), new, text)
     return text
+
+
+def field_aliases(unit, contracts):
+    """A private field renamed in /repo: contracts name fields, so map the pinned name to the current one
+    when the struct still has the same number of fields and the pinned name is unambiguous (DESIGN 10)."""
+    reqs = []
+    for mode in ("decl",):
+        for tok in unit.get(mode, "").split():
+            cid = tok.split("{")[0]
+            c = contracts.get(cid)
+            if c and c.get("fields"):
+                reqs.append({"id": cid, "file": c["file"], "path": c["path"].strip(), "mode": "decl"})
+    if not reqs:
+        return {}, []
+    outs = run_extract(reqs)
+    expected_all = {}
+    for r in reqs:
+        for f in contracts[r["id"]]["fields"].split():
+            expected_all.setdefault(f, set()).add(r["id"])
+    alias, notes = {}, []
+    for o in outs["items"]:
+        if not o["ok"]:
+            continue
+        exp = contracts[o["id"]]["fields"].split()
+        act = o.get("fields", [])
+        if exp == act or len(exp) != len(act):
+            continue
+        for e, a in zip(exp, act):
+            if e != a:
+                if a in exp or len(expected_all.get(e, ())) > 1 or e in alias:
+                    notes.append("field %s of %s renamed to %s but the name is ambiguous: no alias" % (e, o["id"], a))
+                    continue
+                alias[e] = a
+                notes.append("contract field alias: %s.%s is now called %s" % (o["id"], e, a))
+    return alias, notes
 
 
 # ------------------------------------------------------------------------------------------------
@@ -146,7 +190,7 @@ def subst_vars(text, inst):
 def build_request(unit, inst, contracts):
     reqs = []
     order = []
-    for mode in ("decl", "body", "stub"):
+    for mode in ("decl", "body", "stub", "slice"):
         for tok in unit.get(mode, "").split():
             m = re.match(r"^([^{]+)(?:\{(.*)\})?$", tok)
             iid, ov = m.group(1), m.group(2)
@@ -162,7 +206,7 @@ def build_request(unit, inst, contracts):
         sub = {}
         default_subst = c.get("subst " + mode, c.get("subst"))
         if default_subst is None:
-            default_subst = " ".join("%s=${%s}" % (k, k) for k in inst)
+            default_subst = " ".join("%s=${%s}" % (k, k) for k in inst if not k.startswith("__"))
         for kv in subst_vars(default_subst, inst).split():
             k, v = kv.split("=", 1)
             sub[k] = v
@@ -184,6 +228,9 @@ def build_request(unit, inst, contracts):
             "paths": dict(kv.split("=", 1) for kv in c.get("paths", "").split() if "=" in kv),
             "_module": c.get("module", ""),
             "option_map": [int(x) for x in c.get("option_map", "").split()] if mode == "body" else [],
+            "stmts": [int(x) for x in c.get("stmts", "").split()],
+            "_slice_header": subst_vars(c.get("slice_header", ""), inst),
+            "_slice_footer": subst_vars(c.get("slice_footer", ""), inst),
         }
         if c.get("ret", "").strip():
             req["ret_name"] = c["ret"].strip()
@@ -204,12 +251,12 @@ def build_request(unit, inst, contracts):
                 else:
                     d["inv"] = subst_vars(v, inst)
             m = re.match(r"^proof ([\w\.]+)$", k)
-            if m and mode == "body":
+            if m and mode in ("body", "slice"):
                 req["proofs"][m.group(1).replace(".", ":")] = subst_vars(v, inst)
             m = re.match(r"^method (\w+)$", k)
             if m:
                 req["methods"][m.group(1)] = subst_vars(v, inst)
-        if mode != "body":
+        if mode not in ("body", "slice"):
             req["closures"] = {}
             req["loops"] = {}
         req["_inst"] = dict(inst)
@@ -287,6 +334,31 @@ def expand_for(text):
     return "\n".join(out)
 
 
+def strip_proof_bodies(text):
+    """lemma files keep the body of every `pub proof fn` between a line `{` and a line `}` at column 0"""
+    out = []
+    lines = text.split("\n")
+    i = 0
+    while i < len(lines):
+        ln = lines[i]
+        if ln.startswith("pub proof fn "):
+            out.append("#[verifier::external_body] " + ln)
+            i += 1
+            while i < len(lines) and lines[i] != "{":
+                out.append(lines[i])
+                i += 1
+            if i >= len(lines):
+                raise Machinery("lemma file style: body of a proof fn must open with `{` on its own line")
+            out.append("{ }")
+            while i < len(lines) and lines[i] != "}":
+                i += 1
+            i += 1
+            continue
+        out.append(ln)
+        i += 1
+    return "\n".join(out)
+
+
 def read_fragments(kind, names, inst):
     out = []
     for n in names.split():
@@ -313,7 +385,7 @@ def assemble(unit, inst, contracts, outs):
     for n, t in read_fragments("math", unit.get("math_stub", ""), inst):
         # lemma statements only: the proofs are discharged by the unit that lists the file under `math:`
         a.add("// ===== math/%s (lemma STATEMENTS; proofs discharged in the lemmas_* units)" % n, "math")
-        t = re.sub(r"(?m)^(pub proof fn )", r"#[verifier::external_body] \1", t)
+        t = strip_proof_bodies(t)
         t = re.sub(r"//\s*@ob[^\n]*", "", t)
         a.add(t, "mathstub:" + n)
     a.add("} // mod base", "header")
@@ -332,6 +404,9 @@ def assemble(unit, inst, contracts, outs):
     byid = {o["id"]: o for o in outs["items"]}
     bad = [o for o in outs["items"] if not o["ok"]]
     if bad:
+        la = [o for o in bad if o.get("error_kind") == "lost-anchor"]
+        if la and len(la) == len(bad):
+            raise LostAnchors([o["id"] for o in la], {o["id"]: o["error"] for o in la})
         raise Machinery("; ".join("%s: %s [%s]" % (o["id"], o["error"], o["error_kind"]) for o in bad))
     by_module = {}
     for o in outs["items"]:
@@ -354,10 +429,18 @@ def assemble(unit, inst, contracts, outs):
                 extra = subst_vars(contracts[o["id"].split("{")[0]].get("impl_extra", ""), req["_inst"])
                 if extra.strip():
                     a.add(extra, "item", o["id"])
+                if mode == "slice":
+                    a.add(req["_slice_header"], "item", o["id"])
                 a.add(o["text"], "item", o["id"])
+                if mode == "slice":
+                    a.add(req["_slice_footer"], "item", o["id"])
                 a.add("}", "item", o["id"])
             else:
+                if mode == "slice":
+                    a.add(req["_slice_header"], "item", o["id"])
                 a.add(o["text"], "item", o["id"])
+                if mode == "slice":
+                    a.add(req["_slice_footer"], "item", o["id"])
         if module:
             a.add("} // mod %s" % module, "header")
     for n, t in read_fragments("glue", unit.get("glue_files", ""), inst):
@@ -507,8 +590,87 @@ def count_obligations(asm, res):
     return tags, funcs
 
 
+def _auto_stub_candidates(mach, contracts, have):
+    """rustc says a callee is missing from the unit: look it up among the contracts (stub = contract only)"""
+    found = []
+    for m in mach:
+        msg = m["message"]
+        mm = re.search(r"no (?:method|function or associated item) named `(\w+)` found for (?:struct|reference|enum|mutable reference) `([^`]+)`", msg)
+        if mm:
+            meth, ty = mm.group(1), mm.group(2)
+            ty = re.sub(r"<.*$", "", ty.replace("&", "").replace("mut ", "").strip()).split("::")[-1]
+            for cid, c in contracts.items():
+                path = c.get("path", "").strip()
+                if re.match(r"^impl (?:.* for )?%s::%s$" % (re.escape(ty), re.escape(meth)), path) and cid not in have and cid not in found:
+                    found.append(cid)
+        mm = re.search(r"cannot find function `(\w+)` in this scope", msg)
+        if mm:
+            for cid, c in contracts.items():
+                if re.match(r"^fn (?:\w+::)*%s$" % re.escape(mm.group(1)), c.get("path", "").strip()) and cid not in have and cid not in found:
+                    found.append(cid)
+                    break
+    return found
+
+
 def verify_unit(unit_name, inst, contracts, keep=True):
     unit = load_unit(unit_name)
+    auto = []
+    lost = []
+    r = None
+    for attempt in range(8):
+        try:
+            r = _verify_unit_once(unit_name, unit, inst, contracts)
+        except LostAnchors as e:
+            # a function the contracts name no longer exists (renamed, inlined, removed): its obligations are
+            # undecided; the rest of the unit is still verified so that callers' obligations can fail or pass
+            progressed = False
+            for tok in e.ids:
+                for mode in ("body", "stub", "slice"):
+                    toks = unit.get(mode, "").split()
+                    if tok in toks:
+                        toks.remove(tok)
+                        unit[mode] = " ".join(toks)
+                        lost.append((tok, e.why.get(tok, "")))
+                        progressed = True
+            if not progressed:
+                raise Machinery(str(e))
+            continue
+        if not r["mach"] or r["fails"]:
+            break
+        have = set(q["cid"] for q in r["reqs"])
+        cands = _auto_stub_candidates(r["mach"], contracts, have)
+        if not cands:
+            break
+        # a callee the pinned unit did not need: add its contract as an (assumed) stub and retry
+        for cid in cands:
+            c = contracts[cid]
+            keys = [k for k in ("G", "N") if ("${%s}" % k) in json.dumps(c) or (c.get("subst") is None and k in inst)]
+            tok = cid + ("{%s}" % ",".join("%s=%s" % (k, k) for k in keys) if keys else "")
+            unit["stub"] = (unit.get("stub", "") + " " + tok).strip()
+            auto.append(tok)
+    if r is None:
+        raise Machinery("unit %s could not be assembled" % unit_name)
+    r["auto_stubs"] = auto
+    r["lost_anchors"] = lost
+    for tok, why in lost:
+        c = contracts.get(tok.split("{")[0], {})
+        lp = c.get("props", "").split() if c.get("props") is not None else unit.get("props", "").split()
+        r["mach"].append({"message": "lost anchor: %s (%s) - its obligations are undecided" % (tok, why), "rendered": "", "props": lp})
+    return r
+
+
+class LostAnchors(Exception):
+    def __init__(self, ids, why):
+        Exception.__init__(self, "; ".join("%s: %s" % (i, why[i]) for i in ids))
+        self.ids = ids
+        self.why = why
+
+
+def _verify_unit_once(unit_name, unit, inst, contracts):
+    alias, alias_notes = field_aliases(unit, contracts)
+    if alias:
+        inst = dict(inst)
+        inst["__alias__"] = alias
     reqs = build_request(unit, inst, contracts)
     unit["_reqs"] = reqs
     outs = run_extract(reqs)
@@ -542,6 +704,7 @@ def verify_unit(unit_name, inst, contracts, keep=True):
         "verified": vr.get("verified", 0),
         "errors": vr.get("errors", 0),
         "unit_def": unit,
+        "alias_notes": alias_notes,
     }
 
 
